@@ -17,7 +17,7 @@ package choquet
 
 // getWeightForCriteriaUnion sorts the list it is given in place and looks the joined key up (panics when it is missing)
 //@ func getWeightForCriteriaUnion
-//@   property C03 C20 C07 C18 C01 C04 C15
+//@   property C03 C20 C07 C18 C01 C04 C15 C09 C16 C19
 //@   indexsafe
 //@   assigns *commonWeightCriteria
 //@   ensures [same_list_object] *commonWeightCriteria == old(*commonWeightCriteria)
